@@ -459,6 +459,7 @@ def mutators(val, val2):
     }
 
 
+SINGLE_VALUE_MUTATORS = {"add", "add_kw", "add_header", "set", "set_kw", "setitem", "setitem_idx", "setdefault"}
 CTORS = ["headers_list", "headers_dict", "resp_dict", "resp_list", "resp_kwargs", "headers_from_environ_headers", "headers_copy_of_raw"]
 
 
@@ -533,10 +534,11 @@ def run_mutators(shard, rec, rng, hist_len):
                 hist = list(zip(ops, combo))
                 rec.nontrivial(("hist", tuple(hist)))
                 case = {"history": [list(x) for x in hist]}
-                h = Headers([("A", "1"), ("X", "0")])
+                h = Headers([("A", "1"), ("X", "0"), ("x", "00")])
                 for name, v in hist:
                     f = mutators(v, "ok")[name]
                     dirty = v in DIRTY and name not in ("remove", "pop")
+                    before = list(h)
                     try:
                         f(h)
                         if dirty:
@@ -551,6 +553,10 @@ def run_mutators(shard, rec, rng, hist_len):
                         rec.observe("refused_crlf")
                         if stored_dirty(h):
                             rec.violation("C05/H1-crlf-stored-despite-refusal", f"{name}({v!r}); stored {stored_dirty(h)!r}", case, monitor="H1")
+                            break
+                        if name in SINGLE_VALUE_MUTATORS and list(h) != before:
+                            # a refused store of one value is a refusal: nothing else is added, replaced or removed
+                            rec.violation("C05/H1-refused-store-changed-the-headers", f"{name}({v!r}) raised ValueError and left {list(h)!r}, before {before!r}", case, monitor="H1")
                             break
                     except IndexError:
                         if name in ("setitem_idx", "setitem_slice") and len(h) == 0:
